@@ -1224,6 +1224,14 @@ def _partials(tree):
                 st.targets[0].id not in {a.arg for a in fn.args.args}}
         if defs:
             rewrite(fn.body, defs)
+
+            class Drop(ast.NodeTransformer):        # the partial object itself is no longer used
+                def visit_Assign(self, n):
+                    if len(n.targets) == 1 and isinstance(n.targets[0], ast.Name) and n.targets[0].id in defs and is_partial(n.value) and \
+                            not any(isinstance(x, ast.Name) and x.id == n.targets[0].id and isinstance(x.ctx, ast.Load) for x in ast.walk(fn)):
+                        return ast.copy_location(ast.Pass(), n)
+                    return n
+            Drop().visit(fn)
     ast.fix_missing_locations(tree)
 
 
